@@ -8,7 +8,7 @@ Correspondence (three case kinds, one Coq model file FV.Static):
          ``Output.get_data`` is counted at the output boundary.
 * "net": real compositions: time-stepped producers (arbitrary step streams), static producers,
          one or two layers of pull-based components (``fm.components.WeightedSum`` and a harness
-         component built from ``fm.Component`` + ``fm.CallbackOutput``), adapters (Scale, DelayFixed)
+         component built from ``fm.Component`` + ``fm.CallbackOutput``), adapters (Scale, DelayFixed, DelayToPull on links into the merger)
          on the links, time-stepped consumers.  mode "run": ``Composition.connect`` + ``Composition.run``
          (the real scheduler decides the order); mode "script": ``Composition.connect`` and then scripted
          producer updates / consumer requests in arbitrary order (repeated, decreasing, out-of-range
@@ -39,7 +39,7 @@ RULE = (
     "pushes, ops before the info exchange); net: compositions with 1-3 time-stepped producers (step streams "
     "fixed / alternating / random from 1us..days), static producers, 1-4 pull-based components in one or two "
     "layers (WeightedSum, harness CallbackOutput component with 1-2 outputs; fan-out, diamonds, two outputs of "
-    "one pull-based component read by one consumer), Scale / DelayFixed adapters on any link, 1-2 time-stepped "
+    "one pull-based component read by one consumer), Scale / DelayFixed adapters on any link, DelayToPull (steps 1-3, extra delay) on links into a WeightedSum whose output one consumer reads twice, 1-2 time-stepped "
     "consumers; run through Composition.run or scripted after Composition.connect.  non-trivial = a net case "
     "in which a consumer read through a pull-based component from a producer whose step stream differs from "
     "the consumer's (at least 3 successful reads), or a static case with >= 3 requests after an accepted "
@@ -247,6 +247,22 @@ def _gen_net(rng, mode, allow_diverging=False):
                 ins.append({"edge": {"src": list(rng.choice(allst)), "ad": _adapters(rng, unit, True, 0.3)}, "static": rng.random() < 0.5})
         cons.append({"steps": _steps(rng, unit), "ins": ins, "pull_at_connect": rng.random() < 0.6})
     case = {"kind": "net", "mode": mode, "t0": t0, "prods": prods, "stats": stats, "pulls": pulls, "cons": cons}
+    if not allow_diverging and rng.random() < 0.3:
+        # state-dependent delay (DelayToPull) on links from producers INTO a WeightedSum, and the merger read
+        # twice by one consumer (directly and through Scale): needs the merger's one-pull-per-time memo
+        for wi, w in enumerate(pulls):
+            if w["type"] != "ws":
+                continue
+            hit = False
+            for e in w["ins"]:
+                o = prods[e["src"][1]]["outs"][e["src"][2]] if e["src"][0] == "p" else None
+                if o is not None and not o.get("static") and rng.random() < 0.6:
+                    e["ad"].insert(rng.randint(0, len(e["ad"])), ["dtp", [rng.choice([1, 1, 2, 3]), unit * rng.choice([0, 0, 1, 2])]])
+                    hit = True
+            if hit and rng.random() < 0.7:
+                c = rng.choice(cons)
+                c["ins"].append({"edge": {"src": ["w", wi, 0], "ad": []}, "static": False})
+                c["ins"].append({"edge": {"src": ["w", wi, 0], "ad": [["scale", [1, 2]]]}, "static": False})
     if mode == "run":
         if not allow_diverging:
             _make_converging(case)
@@ -436,6 +452,24 @@ CORPUS.append(_net(
     [{"type": "ws", "ins": [_e(("p", 0, 2)), _e(("p", 0, 1)), _e(("p", 0, 0)), _e(("p", 0, 3))]}],
     [{"steps": [4], "ins": [{"edge": _e(("w", 0, 0)), "static": False}, {"edge": _e(("p", 0, 3)), "static": False}], "pull_at_connect": False}],
     end=30))
+
+# round-4 seeded regression (WeightedSum without its per-time memo): DelayToPull on a link INTO the merger, the
+# merger read twice by ONE consumer (directly and through Scale) - the second read of an update must not advance
+# the DelayToPull history
+for _pc in (False, True):
+    CORPUS.append(_net(
+        [{"steps": [DAY], "outs": [_po("m", 0, 1), _po("", 1, 0)]}],
+        [{"type": "ws", "ins": [_e(("p", 0, 0), ("dtp", [1, 0])), _e(("p", 0, 1))]}],
+        [{"steps": [3 * DAY], "ins": [{"edge": _e(("w", 0, 0)), "static": False},
+                                      {"edge": _e(("w", 0, 0), ("scale", [1, 2])), "static": False}], "pull_at_connect": _pc}],
+        end=12 * DAY))
+CORPUS.append(_net(
+    [{"steps": [2, 3], "outs": [_po("mm", 1, 1), _po("", 1, Fraction(1, 2))]}, {"steps": [4], "outs": [_po("m", 2, 1), _po("", 2, 0)]}],
+    [{"type": "ws", "ins": [_e(("p", 0, 0), ("scale", [2, 1]), ("dtp", [2, 1])), _e(("p", 0, 1), ("dtp", [1, 0])),
+                            _e(("p", 1, 0), ("dtp", [3, 2]), ("delay", 1)), _e(("p", 1, 1))]}],
+    [{"steps": [5, 2], "ins": [{"edge": _e(("w", 0, 0)), "static": False}, {"edge": _e(("w", 0, 0)), "static": False},
+                               {"edge": _e(("w", 0, 0), ("scale", [3, 1])), "static": False}], "pull_at_connect": True}],
+    end=40))
 
 # known finding F16: one pull-based component read by two consumers with different steps
 F16_CASE = _net([{"steps": [7], "outs": [_po("m", 1, 1), _po("", 1, 0)]}],
@@ -957,7 +991,12 @@ def _run_net(case):
     for ed in edges:
         cur = out_obj(refs[ed["src"]])
         for a in ed["ads"]:
-            ada = fm.adapters.Scale(float(_fr(a["par"]))) if a["kind"] == "scale" else fm.adapters.DelayFixed(D(a["par"]))
+            if a["kind"] == "scale":
+                ada = fm.adapters.Scale(float(_fr(a["par"])))
+            elif a["kind"] == "dtp":
+                ada = fm.adapters.DelayToPull(steps=a["par"][0], additional_delay=D(a["par"][1]))
+            else:
+                ada = fm.adapters.DelayFixed(D(a["par"]))
             adapters[a["id"]] = ada
             cur = cur >> ada
         cur >> in_obj(ed["owner"])
@@ -1079,7 +1118,7 @@ def _run_net(case):
         composition.connect(T(t0))
         rec.ops.append(["phase"])
         obs["inits"] = {str(a): us_of(ada.initial_time) if getattr(ada, "initial_time", None) is not None else None
-                        for a, ada in adapters.items() if isinstance(ada, fm.adapters.DelayFixed)}
+                        for a, ada in adapters.items() if hasattr(ada, "initial_time")}
         obs["uout"] = {str(wi): _unit_name(pulls[wi].outputs["WeightedSum"].info.units)
                        for wi, w in enumerate(case["pulls"]) if w["type"] == "ws"}
         if case["mode"] == "run":
@@ -1100,7 +1139,7 @@ def _run_net(case):
         obs["outcome"] = err_class(e)
         if "inits" not in obs:
             obs["inits"] = {str(a): us_of(ada.initial_time) if getattr(ada, "initial_time", None) is not None else None
-                            for a, ada in adapters.items() if isinstance(ada, fm.adapters.DelayFixed)}
+                            for a, ada in adapters.items() if hasattr(ada, "initial_time")}
             obs["uout"] = {}
             for wi, w in enumerate(case["pulls"]):
                 if w["type"] == "ws":
@@ -1152,11 +1191,13 @@ def _coq_res_q(r):
 def _coq_edge(ed, inits):
     chain = []
     for a in reversed(ed["ads"]):  # Coq lists the chain from the input towards the source
+        init = inits.get(str(a["id"]))
         if a["kind"] == "scale":
-            chain.append(P(N(a["id"]), C("AScale", Q(_fr(a["par"])))))
+            chain.append(P(N(a["id"]), C("SPlain", C("AScale", Q(_fr(a["par"]))))))
+        elif a["kind"] == "dtp":
+            chain.append(P(N(a["id"]), C("SDelayPull", N(a["par"][0]), Z(a["par"][1]), Z(init if init is not None else 0))))
         else:
-            init = inits.get(str(a["id"]))
-            chain.append(P(N(a["id"]), C("ADelay", Z(a["par"]), Z(init if init is not None else 0))))
+            chain.append(P(N(a["id"]), C("SPlain", C("ADelay", Z(a["par"]), Z(init if init is not None else 0)))))
     return C("mkE", N(ed["key"]), L(chain), N(ed["src"]))
 
 
@@ -1354,6 +1395,8 @@ class _Walk:
         self.pubs = {n: [] for n, nd in enumerate(self.nodes) if nd["kind"] == "out"}
         self.statv = {}
         self.memo = {}      # ws node -> (time, value) | "unknown"
+        self.memo_note = None
+        self.dtp = {}       # DelayToPull adapter id -> pull history | "unknown"
         self.fetched = {}   # ws index -> {i: value}
         self.valid = set()
         self.run_phase = False
@@ -1367,16 +1410,39 @@ class _Walk:
     def edge(self, ed, t, log, pos):
         """returns (pos, acceptable values or None)"""
         scale = Fraction(1)
+        dtps = []
         for a in reversed(ed["ads"]):
             if pos >= len(log) or log[pos][:3] != [2, a["id"], t]:
                 self.bad(f"adapter {a['id']} of edge {ed['key']} expected to be asked for time {t}, trace has {log[pos] if pos < len(log) else 'nothing'}")
+                for i, _s, _t in dtps:
+                    self.dtp[i] = "unknown"
                 return None, None
             pos += 1
+            init = self.inits.get(str(a["id"]))
             if a["kind"] == "delay":
-                init = self.inits.get(str(a["id"]))
                 t = max(t - a["par"], init) if init is not None else t - a["par"]
+            elif a["kind"] == "dtp":
+                # DelayToPull: the time of the steps-th last (successful) pull minus the extra delay, >= initial time
+                h = self.dtp.get(a["id"])
+                dtps.append((a["id"], a["par"][0], t))
+                if h == "unknown" or init is None:
+                    t = log[pos][2] if pos < len(log) else t
+                else:
+                    h = h or [init]
+                    self.dtp[a["id"]] = h
+                    t = max(h[0] - a["par"][1], init)
             else:
                 scale *= _fr(a["par"])
+        pos, vals = self._node(ed, t, log, pos, scale)
+        for i, steps, torig in dtps:
+            h = self.dtp.get(i)
+            if pos is None or vals == "error" or h == "unknown" or h is None:
+                self.dtp[i] = "unknown"
+            else:
+                self.dtp[i] = (h + [torig])[-steps:]
+        return pos, vals
+
+    def _node(self, ed, t, log, pos, scale):
         n = ed["src"]
         nd = self.nodes[n]
         if pos >= len(log) or log[pos][:3] != [0, n, t]:
@@ -1401,6 +1467,7 @@ class _Walk:
             pos += 1
             wi = nd["w"]
             eds = self.pull_edges[wi]
+            again = None
             if nd["kind"] == "ws":
                 memo = self.memo.get(n)
                 nxt = log[pos] if pos < len(log) else None
@@ -1420,11 +1487,14 @@ class _Walk:
                 hit = memo is not None and memo != "unknown" and memo[0] == t
                 if memo == "unknown":
                     hit = not starts_pull
-                if hit:
-                    if starts_pull and nxt[2] == t and False:
-                        pass
+                if hit and not starts_pull:
                     vals = [memo[1]] if memo != "unknown" else None
                     return pos, self.scaled(vals, scale)
+                if hit:
+                    # the memo should have answered; follow what the component really did and judge the outcome
+                    self.memo_note = (f"WeightedSum node {n} was asked again for time {t} and pulled its inputs again "
+                                      f"(one pull of every input per request time)")
+                    again = memo[1]
             ins = []
             for i, e in enumerate(eds):
                 pos, acc = self.edge(e, t, log, pos)
@@ -1445,6 +1515,9 @@ class _Walk:
                 ins.append(v)
             if nd["kind"] == "ws":
                 v = self.wsum(wi, ins)
+                if again is not None and not _close(v, again):
+                    self.bad(f"WeightedSum node {n}: a repeated request for time {t} was answered with {v}, the first answer "
+                             f"for that time was {again} (inputs pulled again; a DelayToPull link then answers for another time)")
                 self.memo[n] = (t, v)
                 vals = [v]
             else:
@@ -1538,6 +1611,8 @@ class _Walk:
                              f"(sum of value*weight of what the pull-based components received)")
                 if self.through_pull(ed):
                     self.reads_through_pull += 1
+            if self.fail is None and self.memo_note:
+                self.bad(self.memo_note)
             if self.fail:
                 return self.fail
         if self.fail:
@@ -1547,6 +1622,10 @@ class _Walk:
         return None
 
     def mark_unknown(self, log):
+        kinds = {a["id"]: a["kind"] for e in self.edges for a in e["ads"]}
+        for x in log or []:
+            if x[0] == 2 and kinds.get(x[1]) == "dtp":
+                self.dtp[x[1]] = "unknown"
         for x in log or []:
             if x[0] == 1 and self.nodes[x[1]]["kind"] == "ws":
                 self.memo[x[1]] = "unknown"
